@@ -730,6 +730,10 @@ func scenC05(g *Gen, dir string) ([]*Op, func(e *Env, i int, op *Op, obs []strin
 	case 2:
 		edit = "add ungrouped non-signature object"
 		ops = append(ops, &Op{Kind: "add", T: TOpt{Kind: "det"}, DI: DI{DT: 0x4007, Fail: -1, Data: DataSpec{Lit: r.Bytes(4)}, Opts: []DIOpt{{Kind: "nogroup"}}}})
+		if r.Chance(1, 2) {
+			edit = "add two ungrouped non-signature objects"
+			ops = append(ops, &Op{Kind: "add", T: TOpt{Kind: "det"}, DI: DI{DT: pick(r, []int32{0x4007, 0x4001, 0x4002}), Fail: -1, Data: DataSpec{Lit: r.Bytes(3)}, Opts: []DIOpt{{Kind: "nogroup"}}}})
+		}
 	case 3:
 		edit = "delete a signed object"
 		if len(groups[gid]) == 1 {
@@ -913,8 +917,18 @@ func scenC04(g *Gen, dir string) ([]*Op, func(e *Env, i int, op *Op, obs []strin
 	if held {
 		ops[patchIdx].Kind = "poke"
 	}
-	forge := s.PGP < 0 && r.Chance(1, 6) && !held
-	if forge {
+	forge := r.Chance(1, 6) && !held && !subset
+	if forge && s.PGP >= 0 {
+		// the clear-sign analogue: someone without a trusted key signs the image as it is now; both
+		// armored blocks go into one signature object
+		u := getUniverse()
+		outsider := (s.PGP + 1 + r.Intn(len(u.PGP)-1)) % len(u.PGP)
+		for _, gid := range sortedGroups(groups) {
+			ops = append(ops, &Op{Kind: "sign", S: SOpts{PGP: outsider, Groups: []uint32{gid}, T: TOpt{Kind: "det"}, NoSalt: true}},
+				&Op{Kind: "forge", S: SOpts{Groups: []uint32{gid}}, ID: uint32(r.Intn(2))})
+		}
+		g.count("tamper:two-clear-signed-blocks-in-one-signature-object")
+	} else if forge {
 		// parser-differential forgery: after the edit, someone without any trusted key signs the
 		// image as it is now and splices that payload into the trusted signature's envelope under
 		// a duplicate member name
@@ -1371,6 +1385,7 @@ func scenC07(g *Gen, dir string) ([]*Op, func(e *Env, i int, op *Op, obs []strin
 		g.count("mix:second-signature")
 	}
 	variant := r.Intn(10)
+	mangled := false
 	var nobj uint32
 	for _, x := range groups {
 		nobj += uint32(len(x))
@@ -1394,6 +1409,23 @@ func scenC07(g *Gen, dir string) ([]*Op, func(e *Env, i int, op *Op, obs []strin
 	case 2: // unrecognised signature format
 		ops = append(ops, &Op{Kind: "add", T: TOpt{Kind: "det"}, DI: sigObjectDI(pick(r, [][]byte{[]byte("not a signature"), {}, []byte("{}"), []byte("-----BEGIN PGP SIGNED MESSAGE-----\n")}), 1, 0, 1, nil, 0)})
 		g.count("variant:unrecognised-format")
+	case 6: // a co-signature whose envelope carries one more "signatures" entry that is no signature; one Verifier sees it, then sees it gone
+		if s.PGP < 0 {
+			var other []int
+			for k := 100; k < 100+len(u.DSSE); k++ {
+				if !containsInt(signers, k) {
+					other = append(other, k)
+				}
+			}
+			if len(other) > 0 {
+				k1 := pick(r, other)
+				ops = append(ops, &Op{Kind: "sign", S: SOpts{PGP: -1, DSSE: []int{k1}, Groups: []uint32{1}, T: TOpt{Kind: "det"}}},
+					&Op{Kind: "mangle", S: SOpts{Groups: []uint32{1}}, N: int64(r.Intn(3))})
+				signers = append(signers, k1)
+				mangled = true
+				g.count("variant:envelope-with-an-entry-that-is-no-signature")
+			}
+		}
 	case 4, 5: // the genuine metadata in an envelope of a payload type that is almost, but not, the SIF metadata type, signed by the same (trusted) key
 		if s.PGP < 0 && len(s.DSSE) > 0 {
 			near := pick(r, []string{strings.ToUpper(mediaType), "Application/vnd.sylabs.sif-metadata+json", mediaType + ";charset=utf-8",
@@ -1458,7 +1490,15 @@ func scenC07(g *Gen, dir string) ([]*Op, func(e *Env, i int, op *Op, obs []strin
 	ops = append(ops, factsOp())
 	ver := len(ops)
 	ops = append(ops, &Op{Kind: "verify", V: v})
-	if variant >= 8 && r.Chance(1, 2) {
+	if mangled {
+		// the Verifier is kept: first use with the broken co-signature present (refused), then the
+		// broken object is deleted and the same Verifier is used again — what it reports for the
+		// remaining signature is exactly the keys that validate that signature
+		ops[ver] = &Op{Kind: "vhold", V: v}
+		ops = append(ops, &Op{Kind: "vheld", N: 0}, &Op{Kind: "delmangled"}, factsOp())
+		ver = len(ops)
+		ops = append(ops, &Op{Kind: "vheld", N: 0})
+	} else if variant >= 8 && r.Chance(1, 2) {
 		// one Verifier kept while the group's first signature is deleted and the group is signed
 		// again by somebody else (the new signature takes the freed slot and ID): what the kept
 		// Verifier then reports is held to the same rules
@@ -1761,6 +1801,11 @@ func scenC16(g *Gen, dir string) ([]*Op, func(e *Env, i int, op *Op, obs []strin
 	modes[2].LegacyAll = true
 	modes[3].Legacy, modes[3].Groups = true, []uint32{1}
 	modes[4].Legacy, modes[4].Objects = true, []uint32{uint32(1 + r.Intn(3))}
+	if r.Chance(1, 2) {
+		// several objects named in one request, in descending or mixed order, with repeats
+		modes[4].Objects = pick(r, [][]uint32{{3, 1}, {2, 1}, {3, 2, 1}, {2, 3, 1}, {3, 3, 1}, {1, 3, 2}})
+		g.count("request:legacy-objects-in-any-order")
+	}
 	modes[5].Groups = []uint32{1}
 	// a group and one of its objects named in the same legacy request: two tasks, each with its own signatures
 	modes[6].Legacy, modes[6].Groups, modes[6].Objects = true, []uint32{1}, []uint32{uint32(1 + r.Intn(2))}
@@ -1943,11 +1988,18 @@ func scenC17Legacy(g *Gen) ([]*Op, func(e *Env, i int, op *Op, obs []string) *Vi
 		{Kind: "descs", DIs: []DI{mk(1, objData[1]), mk(1, objData[2]), mk(2, objData[3])}}}}}
 	objSigners := map[uint32][]int{}
 	var grpSigners []int
+	mislabel := r.Chance(1, 3) // one signature's descriptor names another entity than the one that signed
 	for id := uint32(1); id <= 3; id++ {
 		for k := r.Intn(3); k > 0; k-- {
 			ent := r.Intn(len(u.PGP))
-			ops = append(ops, &Op{Kind: "add", T: TOpt{Kind: "det"}, DI: sigObjectDI(legacyBlob(ent, objData[id], crypto.SHA256), 0, id, 1, u.PGP[ent].PrimaryKey.Fingerprint, 0)})
-			objSigners[id] = append(objSigners[id], ent)
+			named := ent
+			if mislabel {
+				named = (ent + 1 + r.Intn(len(u.PGP)-1)) % len(u.PGP)
+				mislabel = false
+				g.count("legacy:descriptor-names-other-key")
+			}
+			ops = append(ops, &Op{Kind: "add", T: TOpt{Kind: "det"}, DI: sigObjectDI(legacyBlob(ent, objData[id], crypto.SHA256), 0, id, 1, u.PGP[named].PrimaryKey.Fingerprint, 0)})
+			objSigners[id] = append(objSigners[id], named)
 		}
 	}
 	for k := r.Intn(3); k > 0; k-- {
@@ -1995,13 +2047,41 @@ func scenC17Legacy(g *Gen) ([]*Op, func(e *Env, i int, op *Op, obs []string) *Vi
 			g.count("legacy-select:all")
 		}
 	}
+	// verification of the same tasks with every key trusted: when it succeeds, every fingerprint the
+	// listings name belongs to a key that really produced a valid signature
+	var allKeys []int
+	for k := range u.PGP {
+		allKeys = append(allKeys, k)
+	}
+	vsel := trustFor(allKeys)
+	vsel.Legacy, vsel.LegacyAll, vsel.Groups, vsel.Objects = sel.Legacy, sel.LegacyAll, sel.Groups, sel.Objects
+	verI := len(ops)
+	ops = append(ops, &Op{Kind: "verify", V: vsel})
+	verOK := false
 	qa := len(ops)
 	ops = append(ops, &Op{Kind: "signedby", V: sel, Any: true})
 	qb := len(ops)
 	ops = append(ops, &Op{Kind: "signedby", V: sel, Any: false}, obsOp())
 	check := func(e *Env, i int, op *Op, obs []string) *Violation {
+		if i == verI {
+			verOK = len(obs) > 0 && strings.HasPrefix(obs[0], "v ok")
+			return nil
+		}
 		if (i != qa && i != qb) || len(obs) == 0 || !strings.HasPrefix(obs[0], "fp ok") {
 			return nil
+		}
+		if verOK && i == qa {
+			real := map[string]bool{}
+			for _, l := range e.factLines() {
+				if strings.HasPrefix(l, "sf ") && fieldOf(l, "signer") != "-" {
+					real[hex.EncodeToString(u.PGP[atoi(fieldOf(l, "signer"))].PrimaryKey.Fingerprint)] = true
+				}
+			}
+			for _, fp := range strings.Split(strings.TrimPrefix(obs[0], "fp ok "), ",") {
+				if fp != "" && fp != "fp ok" && !real[fp] {
+					return &Violation{Prop: "C17", Key: "C17:listed-not-validated", What: "legacy verification of the selected tasks succeeded, yet the listing names " + fp + ", a key that produced no valid signature in the image", Op: i}
+				}
+			}
 		}
 		count := map[string]int{}
 		for _, t := range tasks {
